@@ -252,6 +252,14 @@ func Destroy() {
 	for _, a := range global.appenders {
 		a.Stop()
 	}
+	// Detach tags and named handles from the stopped loggers, so that
+	// logging falls back to the built-in console logger until the next Refresh.
+	for _, t := range tagRegistry {
+		t.logger = nil
+	}
+	for _, l := range loggerMap {
+		l.logger = nil
+	}
 	global.loggers = nil
 	global.appenders = nil
 	global.init = false
